@@ -471,6 +471,15 @@ def finish(run, ev_cov, level="proof", assumptions=None):
         "violations": run.violations,
     }
     write_evidence(run.pid, ev)
+    # disk hygiene: traces and generated scripts are bulky (GBs in the thorough tier); keep only the
+    # replay files (and everything, for inspection, when a violation was reported)
+    if not run.violations:
+        for f in glob.glob(os.path.join(run.wdir, "*.trace")) + glob.glob(os.path.join(run.wdir, "*.script")) + \
+                 glob.glob(os.path.join(run.wdir, "q_*.txt")) + glob.glob(os.path.join(run.wdir, "a_*.txt")):
+            try:
+                os.remove(f)
+            except OSError:
+                pass
     return 1 if run.violations else 0
 
 from hvprops import PROPS  # noqa: E402  (property table; imports this module lazily)
